@@ -628,14 +628,21 @@ def eval_pair(case_dec, rng):
     lhs = pair(G1c, T1)
     rhs = pair(R1, V1)
     ymax = float(onp.max(onp.abs(realify(y0))))
-    tol = 1e-10 * (float(onp.sum(onp.abs(G1c * T1))) + float(onp.sum(onp.abs(R1 * V1)))) + 1e-12 * float(onp.sum(onp.abs(G1c))) * float(onp.max(onp.abs(V1))) * (1.0 + ymax)
+    # values computed in float16 / float32 carry that precision's rounding: scale the identities' tolerances
+    prec = 1.0
+    for l in common.leaves([x0, y0, r1, t1]):
+        dt_ = onp.asarray(l).dtype
+        if dt_.kind in "fc":
+            prec = max(prec, float(onp.finfo(dt_).eps) / float(onp.finfo(onp.float64).eps))
+    prec = min(prec, 1e13)
+    tol = prec * 1e-10 * (float(onp.sum(onp.abs(G1c * T1))) + float(onp.sum(onp.abs(R1 * V1)))) + 1e-12 * float(onp.sum(onp.abs(G1c))) * float(onp.max(onp.abs(V1))) * (1.0 + ymax)
     if not abs(lhs - rhs) <= tol:
         return Outcome("violation", symptom="not_adjoint", detail="<g,JVP(v)>=%r <VJP(g),v>=%r" % (lhs, rhs))
     # linearity (realified R is linear in realified conj g since conj is real-linear)
-    sc = 1e-10 * (1.0 + float(onp.max(onp.abs(a * R1))) + float(onp.max(onp.abs(b * R2))))
+    sc = prec * 1e-10 * (1.0 + float(onp.max(onp.abs(a * R1))) + float(onp.max(onp.abs(b * R2))))
     if R3.shape != R1.shape or float(onp.max(onp.abs(R3 - (a * R1 + b * R2)))) > sc * max(1, 1):
         return Outcome("violation", symptom="vjp_nonlinear", detail="max dev %r" % float(onp.max(onp.abs(R3 - (a * R1 + b * R2)))))
-    sc = 1e-10 * (1.0 + float(onp.max(onp.abs(a * T1))) + float(onp.max(onp.abs(b * T2))))
+    sc = prec * 1e-10 * (1.0 + float(onp.max(onp.abs(a * T1))) + float(onp.max(onp.abs(b * T2))))
     if T3.shape != T1.shape or float(onp.max(onp.abs(T3 - (a * T1 + b * T2)))) > sc:
         return Outcome("violation", symptom="jvp_nonlinear", detail="max dev %r" % float(onp.max(onp.abs(T3 - (a * T1 + b * T2)))))
     return Outcome("ok")
